@@ -5,7 +5,7 @@ from . import core
 from ..common import Check
 
 INVS = ['TypeOK', 'C05_EventShape', 'C05_ReasonIsFirstCause', 'C05_ClosedHasDisc',
-        'C05_RejectedSilent', 'C05_NothingAfterDisc', 'C04_MessageOnce']
+        'C05_RejectedSilent', 'C05_NothingAfterDisc', 'C05_NothingAfterDiscStrict', 'C04_MessageOnce']
 
 
 def run(tier):
@@ -21,7 +21,7 @@ def run(tier):
              invariants=INVS, properties=['C07_NoFalseTimeout'], min_states=1000),
         dict(name='websocket: CLOSE frame, drop, oversize, writer/reader timeouts, disconnect(), '
                   'timed, asyncio read timeout',
-             consts=core.consts(Alpha=A('openws', 'wsio', 'api', 'send', 'tick'),
+             consts=core.consts(Alpha=A('openws', 'wsio', 'wsburst', 'api', 'send', 'tick'),
                                 FrameProfile='"steady"', ImplWsReadTimeout='TRUE',
                                 ImplJoinLatch='TRUE', MaxMsg=1, Horizon=6, MaxReq=3, MaxQ=4, MaxEv=3),
              invariants=INVS, min_states=500),
@@ -35,11 +35,21 @@ def run(tier):
                                 BodyProfile='"close"', MaxReq=6 if th else 5, MaxQ=3, MaxEv=3),
              invariants=INVS, min_states=500),
     ]
+    jobs.append(dict(
+        name='frames buffered behind a CLOSE frame; environment interleaved with internal steps',
+        consts=core.consts(Alpha=A('openws', 'wsio', 'wsburst', 'send'), FrameProfile='"steady"',
+                           EnvAnytime='TRUE', MaxMsg=1, MaxReq=2, MaxQ=4, MaxEv=3),
+        invariants=INVS, min_states=300))
+    jobs.append(dict(
+        name='NEG the reader keeps processing frames after the session ended (repaired defect F23)',
+        consts=core.consts(Alpha=A('openws', 'wsburst'), FrameProfile='"steady"', MaxReq=2, MaxEv=3,
+                           Deviations='{"ReaderContinuesAfterClose"}'),
+        invariants=['C05_NothingAfterDiscStrict'], expect='C05_NothingAfterDiscStrict'))
     core.run_tlc_jobs(ck, jobs)
 
     seed = ck.seed
     n = 400 if th else 120
-    w = {'post': 10, 'disconnect': 4, 'tick': 10, 'poll': 5, 'wsframe': 10, 'wsdrop': 3,
+    w = {'post': 10, 'disconnect': 4, 'tick': 10, 'poll': 5, 'wsframe': 10, 'wsframes': 5, 'wsdrop': 3,
          'upgrade': 3, 'openws': 2, 'openrej': 2, 'send': 4}
     plans = []
     for impl in ('sync', 'async'):
@@ -53,7 +63,12 @@ def run(tier):
         plans.append(dict(what='pairs of end causes at the same instant, both orders', impl=impl,
                           cfg={'ping_interval': 8, 'ping_timeout': 4, 'monitor': True}, nslots=1,
                           scripts=race_scripts()))
-    core.conform(ck, plans, invariants=core.STATE_INVS + ['C05_NothingAfterDisc'])
+    for impl in ('sync', 'async'):
+        plans.append(dict(what='frames buffered behind a CLOSE frame (websocket-only and upgraded)',
+                          impl=impl, cfg={'ping_interval': 8, 'ping_timeout': 4}, nslots=1,
+                          scripts=buffered_scripts()))
+    core.conform(ck, plans, invariants=core.STATE_INVS + ['C05_NothingAfterDisc',
+                                                          'C05_NothingAfterDiscStrict'])
     ck.cov['rule'] = ('case = one environment script on one implementation/configuration; distinct by '
                       'recorded action sequence')
     ck.assume('handler exceptions are scripted (message tokens mX*, disconnect handler raising in '
@@ -79,6 +94,17 @@ def race_scripts():
         for a in causes_ws:
             for b in causes_ws:
                 out.append([{'op': 'openws'}, {'op': 'tick', 't': t}, a, b])
+    return out
+
+
+def buffered_scripts():
+    out = []
+    for fs in (['CLOSE', 'm1'], ['m1', 'CLOSE', 'm2'], ['CLOSE', 'PONG', 'm1'], ['CLOSE', 'CLOSE'],
+               ['m1', 'm2'], ['CLOSE', 'mE1'], ['BAD7', 'CLOSE', 'm1']):
+        out.append([{'op': 'openws'}, {'op': 'send', 's': 1}, {'op': 'wsframes', 's': 1, 'fs': fs},
+                    {'op': 'send', 's': 1}])
+        out.append([{'op': 'open'}, {'op': 'upgrade', 's': 1}, {'op': 'wsframes', 's': 1,
+                    'fs': ['PINGprobe', 'UPGRADE'] + fs}, {'op': 'poll', 's': 1}, {'op': 'send', 's': 1}])
     return out
 
 
